@@ -21,3 +21,28 @@ def run_many(jobs, parallel=14):
     with ThreadPoolExecutor(parallel) as ex:
         futs = [ex.submit(run_cli, a, **k) for a, k in jobs]
         return [f.result() for f in futs]
+
+
+# renderings of a list file (spec/ListFile.tla: Render / Styles): line ending x final terminator x blank lines x padding
+LIST_STYLES = [dict(eol=e, final=f, blanks=b, pad=p) for e in ('lf', 'crlf', 'cr') for f in (True, False) for b in (False, True) for p in (False, True)]
+
+
+def render_listfile(names, style):
+    """the text of a list file holding `names` in rendering `style` (index into LIST_STYLES or a style dict); mirrors ListFile!Render"""
+    st = LIST_STYLES[style % len(LIST_STYLES)] if isinstance(style, int) else style
+    eol = {'lf': '\n', 'crlf': '\r\n', 'cr': '\r'}[st['eol']]
+    out = []
+    for i, nm in enumerate(names):
+        last = i == len(names) - 1
+        out.append((' \t' if st['pad'] else '') + nm + (' ' if st['pad'] else ''))
+        if not last or st['final']:
+            out.append(eol)
+        if st['blanks'] and not last:
+            out.append(eol + ' ' + eol)
+    return ''.join(out)
+
+
+def write_listfile(path, names, style):
+    with open(path, 'w', newline='') as f:
+        f.write(render_listfile(names, style))
+    return path
